@@ -22,6 +22,7 @@ import hvsrobj
 from check_C05 import ALPHA6
 
 PATS = [[1, 1, 1, 1], [1, 1, 1, 8], [4, 4, 1, 4], [1, 3, 2, 2], [2, 2, 4, 1]]
+PATS_MIXED = [[1, 1, 1, 1], [1, 1, 1, 8], [1, 1, 1, 1, 1, 1, 1, 8], [1, 1, 1, 1, 4, 4, 1, 4], [2, 2, 2, 2, 2, 2, 2, 2]]
 DT, STA, LTA, NCH = 0.25, 2.0, 4.0, 8
 
 
@@ -47,10 +48,11 @@ def main():
 
     rec_cache = {}
 
-    def record(pos, triple, scale=1.0):
-        key = (pos, tuple(triple), scale)
+    def record(pos, triple, scale=1.0, pats_=None):
+        pats_ = pats if pats_ is None else pats_
+        key = (pos, tuple(triple), scale, id(pats_))
         if key not in rec_cache:
-            ts = [h.TimeSeries(series(pats[p - 1], scale), DT) for p in triple]
+            ts = [h.TimeSeries(series(pats_[p - 1], scale), DT) for p in triple]
             rec_cache[key] = h.SeismicRecording3C(ts[0], ts[1], ts[2])
         return rec_cache[key]
 
@@ -85,55 +87,68 @@ def main():
                           dict(kind="td", fn=fn_name, case=case))
         return sel
 
-    order = rng.permutation(len(cases))
-    for n_, ci in enumerate(order):
-        case = cases[ci]
-        recs = [record(w, case["pat"][w]) for w in range(nwin)]
-        comps = tuple(case["comps"])
-        lo, hi = case["lim"][0][0] / case["lim"][0][1], case["lim"][1][0] / case["lim"][1][1]
-        thr, normed = case["thr"][0][0] / case["thr"][0][1], case["thr"][1]
-        obj = (None, trad, azi)[n_ % 3]
-        got = h.sta_lta_window_rejection(recs, sta_seconds=STA, lta_seconds=LTA, min_sta_lta_ratio=lo,
-                                         max_sta_lta_ratio=hi, components=comps, hvsr=obj)
-        sel = judge("sta_lta_window_rejection", recs, got, case["psel"], case, obj)
-        if sel is not None and sorted(sel) != sorted(case["sel"]):
-            run.drift += 1
-        obj2 = (trad, azi, None)[n_ % 3]
-        got = h.maximum_value_window_rejection(recs, maximum_value_threshold=thr, normalized=normed, components=comps, hvsr=obj2)
-        judge("maximum_value_window_rejection", recs, got, case["pmsel"], case, obj2)
-        nt = (ci,) if 0 < len(case["sel"]) < nwin or 0 < len(case["msel"]) < nwin else None
-        run.case(nt, sample=dict(patterns=[[pats[p - 1] for p in w] for w in case["pat"]], components=case["comps"],
-                                 limits=[lo, hi], kept=case["sel"], max_value=[thr, normed], max_kept=case["msel"])
-                 if nt and len(run.samples) < 4 else None)
-        # metamorphic replays on a sample
-        if n_ % 16 == 0:
-            # 2^-30 ~ 9e-10 (ambient noise in m/s), 2^30 ~ 1e9 (raw counts); 49/8 and 41/4 are exact in binary, every level stays an
-            # exact float, and the loudest sample becomes 49 resp. 41 - values for which x * (1/x) is not 1 in binary
-            for k, sc in ((-3, 2.0 ** -3), (5, 2.0 ** 5), (-30, 2.0 ** -30), (30, 2.0 ** 30), ("49/8", 6.125), ("41/4", 10.25)):
-                recs2 = [record(w, case["pat"][w], sc) for w in range(nwin)]
-                got2 = h.sta_lta_window_rejection(recs2, sta_seconds=STA, lta_seconds=LTA, min_sta_lta_ratio=lo,
-                                                  max_sta_lta_ratio=hi, components=comps)
-                judge("sta_lta_window_rejection", recs2, got2, case["psel"], case, None, extra=f"[amplitudes x{sc}]")
-                if normed:
-                    got2 = h.maximum_value_window_rejection(recs2, maximum_value_threshold=thr, normalized=True, components=comps)
-                    judge("maximum_value_window_rejection", recs2, got2, case["pmsel"], case, None, extra=f"[amplitudes x{sc}]")
-            # each window alone: the STA/LTA decision depends on that window only
-            for w in range(nwin):
-                alone = h.sta_lta_window_rejection([recs[w]], sta_seconds=STA, lta_seconds=LTA, min_sta_lta_ratio=lo,
-                                                   max_sta_lta_ratio=hi, components=comps)
-                kept_alone = len(alone) == 1
-                must = all((w + 1) in s for s in case["psel"])
-                may = any((w + 1) in s for s in case["psel"])
-                if (kept_alone and not may) or (not kept_alone and must):
-                    run.violation("sta_lta_window_rejection:alone", f"window {w+1} judged alone: kept={kept_alone}, jointly allowed {case['psel']}; case={case}",
-                                  dict(kind="td", fn="alone", case=case))
-        if n_ % 5000 == 0:
-            # inputs are never modified
-            for w in range(nwin):
-                for ci_, comp in enumerate(("ns", "ew", "vt")):
-                    if not np.array_equal(getattr(recs[w], comp).amplitude, series(pats[case["pat"][w][ci_] - 1])):
-                        run.violation("td:input-mutated", "rejection modified the samples of a window", dict(kind="td", case=case))
+    def process_cases(cases, pats, tag):
+        order = rng.permutation(len(cases))
+        for n_, ci in enumerate(order):
+            case = cases[ci]
+            recs = [record(w, case["pat"][w], pats_=pats) for w in range(nwin)]
+            comps = tuple(case["comps"])
+            lo, hi = case["lim"][0][0] / case["lim"][0][1], case["lim"][1][0] / case["lim"][1][1]
+            thr, normed = case["thr"][0][0] / case["thr"][0][1], case["thr"][1]
+            obj = (None, trad, azi)[n_ % 3]
+            got = h.sta_lta_window_rejection(recs, sta_seconds=STA, lta_seconds=LTA, min_sta_lta_ratio=lo,
+                                             max_sta_lta_ratio=hi, components=comps, hvsr=obj)
+            sel = judge("sta_lta_window_rejection", recs, got, case["psel"], case, obj)
+            if sel is not None and sorted(sel) != sorted(case["sel"]):
+                run.drift += 1
+            obj2 = (trad, azi, None)[n_ % 3]
+            got = h.maximum_value_window_rejection(recs, maximum_value_threshold=thr, normalized=normed, components=comps, hvsr=obj2)
+            judge("maximum_value_window_rejection", recs, got, case["pmsel"], case, obj2)
+            nt = (ci,) if 0 < len(case["sel"]) < nwin or 0 < len(case["msel"]) < nwin else None
+            run.case(nt, sample=dict(patterns=[[pats[p - 1] for p in w] for w in case["pat"]], components=case["comps"],
+                                     limits=[lo, hi], kept=case["sel"], max_value=[thr, normed], max_kept=case["msel"])
+                     if nt and len(run.samples) < 4 else None)
+            # metamorphic replays on a sample
+            if n_ % 16 == 0:
+                # 2^-30 ~ 9e-10 (ambient noise in m/s), 2^30 ~ 1e9 (raw counts); 49/8 and 41/4 are exact in binary, every level stays an
+                # exact float, and the loudest sample becomes 49 resp. 41 - values for which x * (1/x) is not 1 in binary
+                for k, sc in ((-3, 2.0 ** -3), (5, 2.0 ** 5), (-30, 2.0 ** -30), (30, 2.0 ** 30), ("49/8", 6.125), ("41/4", 10.25)):
+                    recs2 = [record(w, case["pat"][w], sc, pats_=pats) for w in range(nwin)]
+                    got2 = h.sta_lta_window_rejection(recs2, sta_seconds=STA, lta_seconds=LTA, min_sta_lta_ratio=lo,
+                                                      max_sta_lta_ratio=hi, components=comps)
+                    judge("sta_lta_window_rejection", recs2, got2, case["psel"], case, None, extra=f"[amplitudes x{sc}]")
+                    if normed:
+                        got2 = h.maximum_value_window_rejection(recs2, maximum_value_threshold=thr, normalized=True, components=comps)
+                        judge("maximum_value_window_rejection", recs2, got2, case["pmsel"], case, None, extra=f"[amplitudes x{sc}]")
+                # each window alone: the STA/LTA decision depends on that window only
+                for w in range(nwin):
+                    alone = h.sta_lta_window_rejection([recs[w]], sta_seconds=STA, lta_seconds=LTA, min_sta_lta_ratio=lo,
+                                                       max_sta_lta_ratio=hi, components=comps)
+                    kept_alone = len(alone) == 1
+                    must = all((w + 1) in s for s in case["psel"])
+                    may = any((w + 1) in s for s in case["psel"])
+                    if (kept_alone and not may) or (not kept_alone and must):
+                        run.violation("sta_lta_window_rejection:alone", f"window {w+1} judged alone: kept={kept_alone}, jointly allowed {case['psel']}; case={case}",
+                                      dict(kind="td", fn="alone", case=case))
+            if n_ % 5000 == 0:
+                # inputs are never modified
+                for w in range(nwin):
+                    for ci_, comp in enumerate(("ns", "ew", "vt")):
+                        if not np.array_equal(getattr(recs[w], comp).amplitude, series(pats[case["pat"][w][ci_] - 1])):
+                            run.violation("td:input-mutated", "rejection modified the samples of a window", dict(kind="td", case=case))
 
+        return order
+
+    order = process_cases(cases, pats, "")
+    # lists in which the windows have different durations (4 and 8 chunks), straight from the specification
+    resm = tlc("TdRejectMC", "TdReject_mixed", timeout=1200, heap="8g")
+    require_tlc_ok(resm, "TdReject_mixed")
+    run.add_tlc(resm, "TdReject_mixed: windows of two durations in one list (Refines, Conjunction, Monotone, PerWindow)")
+    cases_m = [c for c in resm.cases if isinstance(c, dict) and "pat" in c]
+    if quick:
+        cases_m = [cases_m[i] for i in sorted(rng.choice(len(cases_m), min(len(cases_m), 3000), replace=False).tolist())]
+    run.notes["mixed_duration_cases"] = sum(1 for c in cases_m if len({len(PATS_MIXED[w[0] - 1]) for w in c["pat"]}) > 1)
+    process_cases(cases_m, PATS_MIXED, "mixed")
     # ---- windows of different durations in one call (PerWindow: the decision on a window depends on that window only) ----
     #      a long window = two patterns back to back; every window's joint verdict must equal its verdict alone
     mixed = 0
